@@ -84,12 +84,17 @@ class TimeoutFamily:
                 hi = o['seq']
                 tb, ta = o['res']['t_before'], o['res']['t_after']
                 task = None
-                if last_snap:
-                    for p in last_snap.get('live') or []:
+                for _, _, snap in h.snapshots():
+                    for p in snap.get('live') or []:
                         for t in p['tasks']:
                             if t['nid'] == nid:
-                                task = t
-                proc_running = bool(last_snap) and any(p['state'] == 'running' for p in last_snap.get('live') or [])
+                                task = dict(t)
+                if task is not None:
+                    # the state at the beginning of this tick comes from the transition trace, not from a (possibly older) dump
+                    st_ = [e['new'] for e in h.states if e['nid'] == nid and e['seq'] < lo]
+                    task['state'] = st_[-1] if st_ else 'none'
+                root_ = [e['new'] for e in h.states if e['tid'] == '$' and e['seq'] < lo]
+                proc_running = bool(root_) and root_[-1] == 'running'
                 if task is not None:
                     s = task['start_time']
                     for on in ons:
